@@ -413,12 +413,13 @@ def step (H : Hashes) (dirLen : Nat) (s : State) : Op → State × Resp
         | none => (s, .err .InvalidBucketName)
         | some bd2 => if alHas bd2 s.buckets then (s, .err .NoSuchKey) else (s, .err .NoSuchBucket)
       | some n =>
-        let len := match n with
-          | .file c => c.length
-          | .dir => dirLen
+        -- 3751248: after `load_metadata`, a regular file gets the ETag `get_object` returns (`get_md5_sum`); a directory none
+        let (len, etag) : Nat × Option Bytes := match n with
+          | .file c => (c.length, some (etagOf H c))
+          | .dir => (dirLen, none)
         match s.loadMeta b k with
         | none => (s, .err .InternalError)
-        | some md => (s, .head len none md)
+        | some md => (s, .head len etag md)
   | .deleteObject b k =>
     match objPath b k with
     | .error e => (s, .err e)
